@@ -271,7 +271,8 @@ func (i *Interp) jsonUnmarshal(fr *frame, data value, target iface, useNumber bo
 	if err := dec.Decode(&g); err != nil {
 		return i.mkError("json: " + err.Error())
 	}
-	if dec.More() {
+	if !json.Valid(b) {
+		// json.Unmarshal checks the whole input first (trailing `]`, `}` included, which Decoder.More does not report)
 		return i.mkError("invalid character after top-level value")
 	}
 	// keep the source text of every object and array: an UnmarshalJSON method
